@@ -4,11 +4,12 @@ from contracts import c07, sw, enc
 LEVEL = "other"
 TRUSTED = [sw.A1]
 ASSUMPTIONS = [sw.A3]
-EXPLANATION = ('Proved (PyVC, unbounded): the ENCODERS (DAG and cyclic) add exactly the rows  pi = x*w, ee(e) >= |flow(e) - sum_i pi(e,i)|  on every non-ignored edge, for every assignment of the columns (contracts/enc.py); get_objective_value is the sum of scaled per-edge errors; the product linearisations are exact (C12). NOT proved: optimality over all choices of k routes and weights; decided by the BOUNDED comparison of the real models (HiGHS) with an exact enumeration oracle over explicit route lists, DAG and cyclic, both weight types, scaling, ignore sets, additional starts/ends, node weights (rc/p_C07.py).')
+EXPLANATION = ('Proved (PyVC, unbounded): get_solution (DAG and cyclic model) returns one weight per route, each the solver value (float) or the integer within 1/2 of it (int); the ENCODERS (DAG and cyclic) add exactly the rows  pi = x*w, ee(e) >= |flow(e) - sum_i pi(e,i)|  on every non-ignored edge, for every assignment of the columns (contracts/enc.py); get_objective_value is the sum of scaled per-edge errors; the product linearisations are exact (C12). NOT proved: optimality over all choices of k routes and weights; decided by the BOUNDED comparison of the real models (HiGHS) with an exact enumeration oracle over explicit route lists, DAG and cyclic, both weight types, scaling, ignore sets, additional starts/ends, node weights (rc/p_C07.py).')
 
 
 def units(tier):
-    return [u for u in c07.all_units() if "C07" in u.props] + [u for u in enc.all_units() if "C07" in u.props] + [u for u in sw.all_units() if "product" in u.name or "piecewise" in u.name]
+    from contracts import c02
+    return [u for u in c07.all_units() if "C07" in u.props] + [u for u in c02.error_model_units() if "C07" in u.props] + [u for u in enc.all_units() if "C07" in u.props] + [u for u in sw.all_units() if "product" in u.name or "piecewise" in u.name]
 
 
 def bounded(tier, seed):
